@@ -487,7 +487,16 @@ func (x *FnExec) binop(in *ssa.BinOp, st *State) Val {
 
 func isNilConst(v ssa.Value) bool {
 	c, ok := v.(*ssa.Const)
-	return ok && c.Value == nil
+	if !ok || c.Value != nil {
+		return false
+	}
+	switch c.Type().Underlying().(type) {
+	case *types.Pointer, *types.Slice, *types.Interface, *types.Map, *types.Chan, *types.Signature:
+		return true
+	case *types.Basic:
+		return c.Type().Underlying().(*types.Basic).Kind() == types.UntypedNil || c.Type().Underlying().(*types.Basic).Kind() == types.UnsafePointer
+	}
+	return false // zero value of a struct/array: compared field by field
 }
 
 func (x *FnExec) nilTest(v Val, t types.Type) Term {
